@@ -23,6 +23,7 @@ CompShape(i) == {[nimp |-> i - 1, funcs |-> f] : f \in Seqs(1 .. 2, 2)}
 SkipSets(md) == SUBSET ((0 .. Len(md.funcs) - 1) \cup {-1})
 SkipSetsC(md) == SUBSET (0 .. Len(md.funcs) - 1)
 SetToSeq(S) == CHOOSE s \in [1 .. Cardinality(S) -> S] : {s[i] : i \in DOMAIN s} = S
+Rev(s) == [i \in DOMAIN s |-> s[Len(s) + 1 - i]]
 
 Ids(md, sk) == [x \in DOMAIN sk |-> IF sk[x] < 0 THEN md.nimp + Len(md.funcs) + 7 ELSE md.nimp + sk[x]]
 V == Visit(mods, [m \in DOMAIN mods |-> Ids(mods[m], skips[m])])
@@ -35,8 +36,10 @@ Init == kind = "none" /\ mods = <<>> /\ skips = <<>> /\ script = <<>> /\ plan = 
 
 ChooseModule ==
     /\ stage = "shape"
-    /\ \E md \in ModShapes : \E sk \in SkipSets(md) :
-         /\ mods' = <<md>> /\ skips' = <<SetToSeq(sk)>>
+    \* the skip list is a Vec: it is given in some order and in the reverse of it (nothing says it must be sorted)
+    /\ \E md \in ModShapes : \E sk \in SkipSets(md) : \E rev \in BOOLEAN :
+         /\ (rev => Cardinality(sk) >= 2)
+         /\ mods' = <<md>> /\ skips' = <<IF rev THEN Rev(SetToSeq(sk)) ELSE SetToSeq(sk)>>
     /\ kind' = "module" /\ stage' = "script" /\ UNCHANGED <<script, plan>>
 
 ChooseComponent ==
@@ -46,7 +49,9 @@ ChooseComponent ==
             /\ \A i \in 1 .. n : ms[i] \in CompShape(i)
             /\ \E sks \in [1 .. n -> SUBSET (0 .. 1)] :
                  /\ \A i \in 1 .. n : sks[i] \in SkipSetsC(ms[i])
-                 /\ mods' = ms /\ skips' = [i \in 1 .. n |-> SetToSeq(sks[i])]
+                 /\ \E rev \in BOOLEAN :
+                      /\ (rev => \E i \in 1 .. n : Cardinality(sks[i]) >= 2)
+                      /\ mods' = ms /\ skips' = [i \in 1 .. n |-> IF rev THEN Rev(SetToSeq(sks[i])) ELSE SetToSeq(sks[i])]
     /\ kind' = "component" /\ stage' = "script" /\ UNCHANGED <<script, plan>>
 
 ChooseScript ==
